@@ -85,15 +85,6 @@ Definition named (c : ctx_table) (rf : regfile) (n : name) : outcome (name * Z) 
 (* CpuContext::valid_registers / registers: REGISTERS, or the set's own members *)
 Definition cpu_valid_registers (c : ctx_table) (rf : regfile) (v : validity) : outcome (list (name * Z)) :=
   mapM (named c rf) (match v with VAll => ct_registers c | VSome s => s end).
-(* MinidumpContext::registers: general_purpose_registers().iter().map(get_register_always) *)
-Definition md_registers (c : ctx_table) (rf : regfile) : outcome (list (name * Z)) :=
-  mapM (named c rf) (ct_gpr c).
-(* MinidumpContext::valid_registers: registers().filter(register_is_valid) *)
-Definition md_valid_registers (c : ctx_table) (rf : regfile) (v : validity) : outcome (list (name * Z)) :=
-  match md_registers c rf with
-  | Ret l => Ret (filter (fun p => is_valid c (fst p) v) l)
-  | Fail => Fail | Panic t => Panic t | OutOfFuel => OutOfFuel
-  end.
 (* MinidumpContext::get_stack_pointer / get_instruction_pointer: the arm's body, evaluated.
    Field values are of their declared unsigned type, so a widening cast is the identity and
    a narrowing one truncates; `&&` / `||` / `if` evaluate only what Rust evaluates (an
@@ -123,6 +114,7 @@ Fixpoint aeval (rf : regfile) (env : list (name * Z)) (e : aexp) : outcome Z :=
 with beval (rf : regfile) (env : list (name * Z)) (b : bexp) : outcome bool :=
   match b with
   | BLit t => Ret t
+  | BVar x => match lookup_var x env with Some v => Ret (negb (v =? 0)) | None => Fail end
   | BEq x y => do u <- aeval rf env x; do v <- aeval rf env y; Ret (u =? v)
   | BNe x y => do u <- aeval rf env x; do v <- aeval rf env y; Ret (negb (u =? v))
   | BAnd x y => do u <- beval rf env x; if (u : bool) then beval rf env y else Ret false
@@ -132,6 +124,30 @@ with beval (rf : regfile) (env : list (name * Z)) (b : bexp) : outcome bool :=
 Definition md_stack_pointer (c : ctx_table) (rf : regfile) : outcome Z := aeval rf [] (ct_sp_acc c).
 Definition md_instruction_pointer (c : ctx_table) (rf : regfile) : outcome Z := aeval rf [] (ct_ip_acc c).
 Definition register_size (c : ctx_table) : Z := ct_width c / 8.
+
+(* MinidumpContext dispatch (this variant's arms, regenerated from the source):
+   get_register_always = the arm's expression over the forwarded call;
+   get_register = `let valid = <arm>; if valid { Some(self.get_register_always(reg)) } else { None }`;
+   registers = general_purpose_registers().iter().map(|reg| (reg, self.get_register_always(reg)));
+   valid_registers = registers().filter(|(reg, _)| <arm>) *)
+Definition md_get_always (c : ctx_table) (rf : regfile) (n : name) : outcome Z :=
+  do x <- get_always c rf n; aeval rf [(v_ga, x)] (ct_md_get c).
+Definition md_is_valid (e : bexp) (c : ctx_table) (rf : regfile) (n : name) (v : validity) : outcome bool :=
+  beval rf [(v_iv, if is_valid c n v then 1 else 0)] e.
+Definition md_get_register (c : ctx_table) (rf : regfile) (n : name) (v : validity) : outcome (option Z) :=
+  do ok <- md_is_valid (ct_md_valid c) c rf n v;
+  if (ok : bool) then (do x <- md_get_always c rf n; Ret (Some x)) else Ret None.
+Definition md_named (c : ctx_table) (rf : regfile) (n : name) : outcome (name * Z) :=
+  do x <- md_get_always c rf n; Ret (n, x).
+Definition md_registers (c : ctx_table) (rf : regfile) : outcome (list (name * Z)) :=
+  mapM (md_named c rf) (ct_gpr c).
+Fixpoint filterM {A} (p : A -> outcome bool) (l : list A) : outcome (list A) :=
+  match l with
+  | [] => Ret []
+  | a :: r => do keep <- p a; do r' <- filterM p r; Ret (if (keep : bool) then a :: r' else r')
+  end.
+Definition md_valid_registers (c : ctx_table) (rf : regfile) (v : validity) : outcome (list (name * Z)) :=
+  do l <- md_registers c rf; filterM (fun p => md_is_valid (ct_md_filter c) c rf (fst p) v) l.
 
 (* CpuContext::format_register: format!("0x{:01$x}", get_register_always(reg), size_of::<Register>() * 2):
    lower-case hexadecimal, zero-padded to AT LEAST 2*size digits (the unchecked read: an
